@@ -249,6 +249,21 @@ class C09(CleanBase):
             cases.append({"ci": False, "updvar": "unset", "colour": False, "ops": ops,
                           "meta": {"mode": "ci=%s upd=%s sort=%s" % (ci, upd, sort), "ci": ci, "upd": upd, "sort": sort,
                                    "tests": [hx(t) for t in info["tests"]], "ncalls": {hx(t): n_ for t, n_ in info["ncalls"].items()}}})
+        # snapshot directories whose PATH holds characters that mean something to a glob / a regular expression / a format:
+        # a directory is a name, nothing else (every file of it with `.snap` in its name is looked at, the stale ones are found)
+        for i in range(max(12, n // 12)):
+            r = rng.fork()
+            D = r.choice([b"[linux]/snaps", b"back\\slash/__snapshots__", b"star*dir", b"q?x/y", b"{a,b}/s", b"100%/x", b"a[0]", b"snap[s", b"sp ace/d", b"(paren)/+plus"])
+            used = frame(b"TestLive - 1", b"live value") + frame(b"TestGone - 1", b"stale") + (frame(b"TestLive - 2", b"beyond the call count") if r.chance(1, 2) else b"")
+            setup = [G.op_putfile(D + b"/used.snap", used), G.op_putfile(D + b"/orphan.snap", frame(b"TestX - 1", b"x")),
+                     G.op_putfile(D + b"/TestOld_1.snap", b"standalone stale"), G.op_putfile(D + b"/keep.txt", b"unrelated")]
+            run = [G.op_newconfig(dir=D, fn=b"used"), G.op_match_snap(1, b"TestLive", [b"live value"]), G.op_end(b"TestLive")]
+            ci, upd = r.choice(G.ENVS)
+            sort = r.chance(1, 2)
+            ops = setup + run + [G.op_setenv(ci, upd), {"op": "dumpfs"}, {"op": "clean", "sort": sort, "count": 1, "colour": False}, {"op": "dumpfs"}]
+            cases.append({"ci": False, "updvar": "unset", "colour": False, "ops": ops,
+                          "meta": {"mode": "hostile-dir ci=%s upd=%s sort=%s" % (ci, upd, sort), "ci": ci, "upd": upd, "sort": sort,
+                                   "tests": [hx(b"TestLive")], "ncalls": {hx(b"TestLive"): 1}}})
         return cases
 
     def oracle(self, case, ops, results):
@@ -295,6 +310,9 @@ class C09(CleanBase):
         for (path, t), n_ in calls.items():
             for k in range(1, n_ // cnt + 1):
                 addressed.setdefault(path, set()).add(unhx(t) + b" - %d" % k)
+        # the directories Clean visits: those of the addressed files (and the default directory, where standalone calls of the
+        # default handle land)
+        visited = {path.rsplit(b"/", 1)[0] for path in addressed} | ({b"/S/def"} if (stand or not addressed) else set())
         otests = [] if c["otests"] == "~" else [unhx(x) for x in c["otests"].split(",")]
         ofiles = [] if c["ofiles"] == "~" else [unhx(x) for x in c["ofiles"].split(",")]
         exp_tests, ent_b, ent_a = [], {}, {}
@@ -310,7 +328,7 @@ class C09(CleanBase):
         for p in before:
             path = unhx(p)
             d, nme = path.rsplit(b"/", 1)
-            if d == b"/S/def" and b".snap" in nme and path not in addressed:
+            if d in visited and b".snap" in nme and path not in addressed:
                 st = any(nme == unhx(t).replace(b"/", b"_") + b"_%d.snap" % k for t, n_ in stand.items() for k in range(1, n_ // cnt + 1))
                 if not st:
                     exp_files.append(path)
@@ -340,7 +358,7 @@ class C09(CleanBase):
         for p in before:
             path = unhx(p)
             d, nme = path.rsplit(b"/", 1)
-            if (d != b"/S/def" or b".snap" not in nme) and after.get(p) != before[p]:
+            if (d not in visited or b".snap" not in nme) and after.get(p) != before[p]:
                 fails.append({"msg": "file outside Clean's remit touched: %r" % path})
         return fails
 
